@@ -101,6 +101,20 @@ Theorem C11_commit_loses_checkpoint_refuted :
 Proof. exact lost_checkpoint_during_commit. Qed.
 Print Assumptions C11_commit_loses_checkpoint_refuted.
 
+(* the base commit of a checkpoint is resolved when the process starts: if a commit of the same
+   worktree (7 -> 101) completes before the checkpoint writes, no read..write windows overlap and
+   still the checkpoint ends in the working log of the OLD base 7 (consumed and retired by the
+   commit); the log and INITIAL of the new base 101 do not know it (known class C11-K4) *)
+Theorem C11_stale_base_refuted :
+  let progs := wit_commit_ckpt_progs in
+  let sched := sched_commit_then_ckpt in
+  let final := run progs sched empty_store in
+  length (trace_of progs sched) = 14%nat /\ ~ Known_C11 progs sched /\
+  cp_ids (final (OCp 0 7)) = [2] /\ cp_ids (final (OCp 0 101)) = [] /\
+  as_init (final (OInit 0 101)) = [] /\ as_notes (final ONotes) = [(101, 11)].
+Proof. exact stale_base. Qed.
+Print Assumptions C11_stale_base_refuted.
+
 (* ANY schedule: nothing is invented, order is kept (a subsequence of initial ++ appended in
    write order; with distinct identities nothing appears twice), every thread executes a prefix
    of its program *)
